@@ -158,6 +158,12 @@ type HOp struct {
 type HProg struct {
 	Ops []HOp   `json:"ops"`
 	Ret ErrSpec `json:"ret"`
+	// StopOnCtx: skip the remaining ops as soon as the handler's context is
+	// done or a receive fails (a well-behaved, cancellation-aware handler).
+	StopOnCtx bool `json:"stop_on_ctx,omitempty"`
+	// WaitCtx: after the ops, wait for the context to end and return its
+	// error as a status (status.FromContextError).
+	WaitCtx bool `json:"wait_ctx,omitempty"`
 }
 
 // ErrObs is a printable, comparable record of an error value.
@@ -231,12 +237,19 @@ func RunHandler(prog HProg, stream grpc.ServerStream, log *HLog) error {
 	}
 	log.Deadline, log.HasDeadline = ctx.Deadline()
 	log.mu.Unlock()
+	stop := false
 	for _, op := range prog.Ops {
+		if prog.StopOnCtx && (stop || ctx.Err() != nil) {
+			break
+		}
 		switch op.Op {
 		case "recv":
 			b, err := RecvBytes(stream)
 			log.mu.Lock()
 			if err != nil {
+				if err != io.EOF {
+					stop = true
+				}
 				if log.RecvEnd == nil {
 					o := Observe(err)
 					log.RecvEnd = &o
@@ -283,12 +296,21 @@ func RunHandler(prog HProg, stream grpc.ServerStream, log *HLog) error {
 			}
 		}
 	}
+	var ret error
+	if prog.WaitCtx {
+		<-ctx.Done()
+		ret = status.FromContextError(ctx.Err()).Err()
+	} else if prog.StopOnCtx && ctx.Err() != nil {
+		ret = status.FromContextError(ctx.Err()).Err()
+	} else {
+		ret = prog.Ret.Build()
+	}
 	log.mu.Lock()
 	log.Returned = true
 	log.ReturnedAt = time.Now()
 	log.CtxDone = ctx.Err() != nil
 	log.mu.Unlock()
-	return prog.Ret.Build()
+	return ret
 }
 
 // Snapshot returns a copy safe to read while the handler may still run.
